@@ -75,6 +75,28 @@ theorem segmented_eq_monolithic (ph : R → K) (amp : Attr K) (opd : Attr R) (S0
   rw [this]
   exact (segFactor_congr ph amp opd S0 S1 _ _ r c (hM _ _)).symm
 
+/-- non-vacuity: two segments with overlapping bounding *rows/columns ranges* but disjoint supports, their union, and a
+field on which both descriptions give the same total -/
+example : ([Witness.g2, Witness.g3].map Seg.m).Pairwise (fun a b => ∀ i j, ¬ (a i j = true ∧ b i j = true)) ∧
+    sumList (planeMultiply Witness.ph1 ⟨.scalar 2, .scalar 0, .segs 5 5 [Witness.g2, Witness.g3]⟩ [Witness.a55]) (fun g => g.emb (-2) 0) = 10 ∧
+    sumList (planeMultiply Witness.ph1 ⟨.scalar 2, .scalar 0, .segs 5 5 [Witness.g23]⟩ [Witness.a55]) (fun g => g.emb (-2) 0) = 10 :=
+  ⟨Witness.g23_disjoint, by rfl, by rfl⟩
+
+/-- **known finding KF-C03-one-pixel-segment, on the model** (the negation of `segmented_eq_monolithic` without `hbig`):
+the partition {one pixel (1,1)} ∪ {2×3 block} of a 5×5 aperture against the monolithic union mask, on a 5×5 field of ones:
+at the global coordinate (-2, -2) — pixel (0, 0), outside every mask — the monolithic total is 0 and the segmented total
+is 1, because the 1×1 phasor of the one-pixel segment is broadcast over the whole field -/
+theorem kf_one_pixel_segment :
+    ([Witness.g1, Witness.g2].map Seg.m).Pairwise (fun a b => ∀ i j, ¬ (a i j = true ∧ b i j = true)) ∧
+    (∀ i j, Witness.g12.m i j = ([Witness.g1, Witness.g2].map Seg.m).any (fun m => m i j)) ∧
+    sumList (planeMultiply Witness.ph1 ⟨.scalar 1, .scalar 0, .segs 5 5 [Witness.g1, Witness.g2]⟩ [Witness.ones55]) (fun g => g.emb (-2) (-2)) = 1 ∧
+    sumList (planeMultiply Witness.ph1 ⟨.scalar 1, .scalar 0, .segs 5 5 [Witness.g12]⟩ [Witness.ones55]) (fun g => g.emb (-2) (-2)) = 0 :=
+  ⟨Witness.g12_disjoint, fun _ _ => rfl, by rfl, by rfl⟩
+
+/-- non-vacuity of `ChainOK`: the fresh wavefront through a two-segment plane -/
+example : ChainOK Witness.ph1 [(⟨.scalar 2, .scalar 0, .segs 5 5 [Witness.g2, Witness.g3]⟩ : PlaneM Int Int)] [Witness.w0] :=
+  Witness.chain_ok
+
 /-- **chains of planes distribute**: after any chain of planes the total field is the total incoming field times the
 product of the plane transmissions, pixel by pixel — the sum over all (field × segment × segment × …) products equals
 the product of the sums. (`ChainOK`: positive shapes and no one-element intermediate field.) -/
